@@ -105,6 +105,7 @@ structure Tables where
   operatorNeg : Deleg
   operatorTruediv : Deleg
   operatorMatmul : Deleg
+  operatorRMatmul : Deleg
   functionalSub : Deleg
   /-- `Functional.__radd__ = __add__` -/
   functionalRAddIsAdd : Bool
